@@ -4,7 +4,7 @@ import CoxeterVerif.Spec.Inside2D
 /-!
   Helper lemmas for C06.
 
-  1. Edge chains (2-D analogue of `Lemmas/Chain.lean`): `EdgeChainEq E F` — two lists of directed
+  1. Edge chains (2-D analogue of `Lemmas/Chain.lean`): `EdgeChainEq2 E F` — two lists of directed
      edges are equal as simplicial 1-chains, i.e. every odd functional on directed edges (with
      values in any commutative group) has the same sum over both.  Moves: permutation, cancelling
      `e, e.rev`, congruence under append, vertex maps.  Backbone `esum_bdry`.
@@ -29,7 +29,7 @@ variable {β : Type} {G : Type} [AddCommGroup G]
 def esum (φ : β × β → G) (E : List (β × β)) : G := (E.map φ).sum
 
 /-- odd functional on directed edges: reversing the edge negates the value -/
-def OddEdge (φ : β × β → G) : Prop := ∀ a b, φ (b, a) = -φ (a, b)
+def OddEdge2 (φ : β × β → G) : Prop := ∀ a b, φ (b, a) = -φ (a, b)
 
 @[simp] theorem esum_nil (φ : β × β → G) : esum φ [] = 0 := rfl
 @[simp] theorem esum_cons (φ : β × β → G) (e) (E) : esum φ (e :: E) = φ e + esum φ E := by
@@ -40,29 +40,29 @@ def OddEdge (φ : β × β → G) : Prop := ∀ a b, φ (b, a) = -φ (a, b)
 end chains
 
 /-- equality of 1-chains: all odd functionals (into every commutative group) agree -/
-def EdgeChainEq (E F : List Edge2) : Prop :=
-  ∀ (G : Type) [AddCommGroup G] (φ : Edge2 → G), OddEdge φ → esum φ E = esum φ F
+def EdgeChainEq2 (E F : List Edge2) : Prop :=
+  ∀ (G : Type) [AddCommGroup G] (φ : Edge2 → G), OddEdge2 φ → esum φ E = esum φ F
 
-namespace EdgeChainEq
-theorem refl (E) : EdgeChainEq E E := fun _ _ _ _ => rfl
-theorem symm {E F} (h : EdgeChainEq E F) : EdgeChainEq F E := fun G _ φ hφ => (h G φ hφ).symm
-theorem trans {E F H} (h₁ : EdgeChainEq E F) (h₂ : EdgeChainEq F H) : EdgeChainEq E H :=
+namespace EdgeChainEq2
+theorem refl (E) : EdgeChainEq2 E E := fun _ _ _ _ => rfl
+theorem symm {E F} (h : EdgeChainEq2 E F) : EdgeChainEq2 F E := fun G _ φ hφ => (h G φ hφ).symm
+theorem trans {E F H} (h₁ : EdgeChainEq2 E F) (h₂ : EdgeChainEq2 F H) : EdgeChainEq2 E H :=
   fun G _ φ hφ => (h₁ G φ hφ).trans (h₂ G φ hφ)
-theorem perm {E F : List Edge2} (h : E.Perm F) : EdgeChainEq E F :=
+theorem perm {E F : List Edge2} (h : E.Perm F) : EdgeChainEq2 E F :=
   fun _ _ φ _ => by unfold esum; exact (h.map φ).sum_eq
 /-- an edge and its reverse cancel -/
-theorem cancel (a b : P2 ℝ) (E) : EdgeChainEq ((a, b) :: (b, a) :: E) E :=
+theorem cancel (a b : P2 ℝ) (E) : EdgeChainEq2 ((a, b) :: (b, a) :: E) E :=
   fun _ _ φ hφ => by simp [hφ a b]
-theorem append {E E' F F'} (h₁ : EdgeChainEq E E') (h₂ : EdgeChainEq F F') :
-    EdgeChainEq (E ++ F) (E' ++ F') := fun G _ φ hφ => by
+theorem append {E E' F F'} (h₁ : EdgeChainEq2 E E') (h₂ : EdgeChainEq2 F F') :
+    EdgeChainEq2 (E ++ F) (E' ++ F') := fun G _ φ hφ => by
   simp only [esum_append, h₁ G φ hφ, h₂ G φ hφ]
 /-- chains are preserved by moving the vertices with any map -/
-theorem map (f : P2 ℝ → P2 ℝ) {E F} (h : EdgeChainEq E F) :
-    EdgeChainEq (E.map fun e => (f e.1, f e.2)) (F.map fun e => (f e.1, f e.2)) :=
+theorem map (f : P2 ℝ → P2 ℝ) {E F} (h : EdgeChainEq2 E F) :
+    EdgeChainEq2 (E.map fun e => (f e.1, f e.2)) (F.map fun e => (f e.1, f e.2)) :=
   fun G _ φ hφ => by
     have := h G (fun e => φ (f e.1, f e.2)) (fun a b => hφ (f a) (f b))
     simpa [esum, List.map_map, Function.comp_def] using this
-end EdgeChainEq
+end EdgeChainEq2
 
 /-- boundary of a triangle as a chain of three directed edges -/
 def Spec.In2D.Tri2.bdry (t : Tri2 ℝ) : List Edge2 := [(t.a, t.b), (t.b, t.c), (t.c, t.a)]
@@ -75,9 +75,9 @@ theorem esum_flatMap {G : Type} [AddCommGroup G] (φ : Edge2 → G) (Ts : List (
 
 /-- **Backbone.** If `φ` is odd and its sum round the boundary of any single triangle of `Ts` is
 `Φ`, then round any polygon that is the boundary chain of the triangulation `Ts` it is `Σ Φ`. -/
-theorem esum_bdry {G : Type} [AddCommGroup G] {φ : Edge2 → G} {Φ : Tri2 ℝ → G} (hφ : OddEdge φ)
+theorem esum_bdry {G : Type} [AddCommGroup G] {φ : Edge2 → G} {Φ : Tri2 ℝ → G} (hφ : OddEdge2 φ)
     {E : List Edge2} {Ts : List (Tri2 ℝ)} (hT : ∀ T ∈ Ts, esum φ T.bdry = Φ T)
-    (h : EdgeChainEq E (Ts.flatMap Tri2.bdry)) : esum φ E = (Ts.map Φ).sum := by
+    (h : EdgeChainEq2 E (Ts.flatMap Tri2.bdry)) : esum φ E = (Ts.map Φ).sum := by
   rw [h G φ hφ, esum_flatMap]; congr 1; exact List.map_congr_left hT
 
 /-! ## 2. cyclic sums over `edges vs` -/
@@ -116,7 +116,7 @@ theorem pathSum_append_two (φ : β × β → G) (l : List β) (x y : β) :
       simp only [List.cons_append, pathSum] at ih ⊢
       rw [ih]; abel
 
-theorem pathSum_reverse {φ : β × β → G} (hφ : OddEdge φ) (l : List β) :
+theorem pathSum_reverse {φ : β × β → G} (hφ : OddEdge2 φ) (l : List β) :
     pathSum φ l.reverse = -pathSum φ l := by
   induction l with
   | nil => simp [pathSum]
@@ -145,7 +145,7 @@ theorem esum_edges_roll (φ : β × β → G) (vs : List β) :
       simp only [List.cons_append, pathSum]; abel
 
 /-- reversing the vertex list negates the cyclic sum of an odd functional -/
-theorem esum_edges_reverse {φ : β × β → G} (hφ : OddEdge φ) (vs : List β) :
+theorem esum_edges_reverse {φ : β × β → G} (hφ : OddEdge2 φ) (vs : List β) :
     esum φ (edges vs.reverse) = -esum φ (edges vs) := by
   cases vs with
   | nil => simp [edges, roll]
